@@ -13,6 +13,15 @@ TRUSTED = c17.TRUSTED + [
     "hook attachment names come from runtime.FuncForPC over the closures of SemanticBQL() (depends on compiler naming)",
 ]
 
+def orderby_repeats(txt):
+    """classifier of C18-orderby-repeated-keys: the statement has an ORDER BY clause in which a binding occurs twice"""
+    m = re.search(r"order\s+by\s+(.*?)(having|before|after|between|limit|;)", txt, flags=re.I | re.S)
+    if not m:
+        return False
+    keys = re.findall(r"\?[A-Za-z0-9_]+", m.group(1))
+    return len(keys) != len(set(keys))
+
+
 def hook_term(r):
     w = 0 if r["hook"] == "dataAccumulator" else 1
     outs = {"none": 0, "emit": 1, "lower": 1, "upper": 2, "both": 3, "err": 2 if w == 0 else 4, "panic": 5}
@@ -49,11 +58,29 @@ def run(ctx):
         ctx.violation({"kind": "closure-machine-vs-real-hook", "case": hrows[i]})
     # 3. statelessness on the real parser: last statement of a history on one parser vs a fresh parser
     srows = c17.hparse(["-mode", "state", "-n", "20000" if thorough else "1500", "-seed", str(ctx.seed), "-exhaust", "1"])
+    det = [r for r in srows if r["kind"] == "determinism"]
+    srows = [r for r in srows if r["kind"] == "state"]
+    nondet_known = 0
+    for r in det:
+        if r["same"]:
+            continue
+        if any(k["id"] == "C18-orderby-repeated-keys" for k in vcheck.known_findings("C18")) and orderby_repeats(r["seq"][0]):
+            nondet_known += 1
+        else:
+            ctx.violation({"kind": "statement-meaning-not-a-function-of-its-text", "case": r,
+                           "explain": "the same text parsed on fresh parsers gives different Statement meanings"})
+    if nondet_known:
+        ctx.known("C18-orderby-repeated-keys: ORDER BY with a repeated key is rewritten by ranging over a Go map, the extracted "
+                  "order of keys changes from parse to parse (%d statements in this run)" % nondet_known)
     diff = [r for r in srows if not r["same"]]
     known = vcheck.known_findings("C18")
     excused, unexplained = [], []
+    kid = {k["id"] for k in known}
     for r in diff:
-        (excused if (known and r.get("same_after_flush")) else unexplained).append(r)
+        if "C18-orderby-repeated-keys" in kid and orderby_repeats(r["seq"][-1]):
+            nondet_hist = True          # the last statement is itself not a function of its text (reported above)
+            continue
+        (excused if ("C18-stale-lastnop" in kid and r.get("same_after_flush")) else unexplained).append(r)
     for r in unexplained[:5]:
         ctx.violation({"kind": "statement-meaning-depends-on-history", "case": r,
                        "explain": "the last statement parses differently on a parser that has parsed the earlier ones than on a fresh parser"})
@@ -87,6 +114,7 @@ def run(ctx):
     ctx.cov["samples"] = [{"text": rows[0]["text"], "accepted": rows[0]["accepted"]}, hrows[0], srows[0]]
     ctx.cov["kinds"] = {k: sum(1 for r in rows if r["kind"] == k) for k in sorted(set(r["kind"] for r in rows))}
     ctx.cov["histories"] = len(srows)
+    ctx.cov["determinism_statements"] = len(det)
     ctx.cov["histories_differing_excused_by_known_finding"] = len(excused)
     ctx.cov["hook_runs"] = len(hrows)
     ctx.assumptions += ["statement meaning is compared through the exported accessors of semantic.Statement rendered as text",
